@@ -329,7 +329,18 @@ def _build_harness(source, modes=None):
     elif kind == "shipped":
         spec, scn, _ = _scenario(lambda: sources.shipped_case(source["name"]), "C17")
     elif kind == "gen":
-        spec, scn = _scenario(lambda: sources.generated_case(source["params"]), "C15")
+        from .budget import BudgetExceeded, guarded_generate
+
+        def gen():
+            # only the generator call runs under the line budget (a generator that does not
+            # terminate is C15's violation; every other check must not hang on it)
+            import nasim
+            try:
+                scn_ = guarded_generate(lambda: nasim.generate_scenario(**source["params"]))
+            except BudgetExceeded:
+                raise SourceRejected("C15", "generate_scenario did not return within the line budget")
+            return M.Spec.from_scenario(scn_), scn_
+        spec, scn = _scenario(gen, "C15")
     else:
         raise ValueError(kind)
     return Harness(spec, scn, modes, tag=kind)
